@@ -347,6 +347,7 @@ def part_E(ck, rng, n):
                 dims.append(d)
                 if d % 2 == 0 and rng.random() < 0.6:
                     d //= 2
+        imex = (i % 5 == 3)
         for l in range(nl):
             lam = rfrac(rng, -3, 1)
             lams.append(lam)
@@ -354,14 +355,19 @@ def part_E(ck, rng, n):
                 lamv, cv = (lam,), (c,)
             else:
                 lamv, cv = tuple(rfrac(rng, -3, 1) for _ in range(dims[l])), tuple(rfrac(rng, -2, 2) for _ in range(dims[l]))
-            levels_cfg.append(dict(num_nodes=nn[l], quad_type='RADAU-RIGHT', dim=dims[l], QI=rng.choice(['IE', 'LU', 'MIN-SR-S', 'IEpar']),
-                                   lam=lamv, c=cv))
+            lvc = dict(num_nodes=nn[l], quad_type='RADAU-RIGHT', dim=dims[l], QI=rng.choice(['IE', 'LU', 'MIN-SR-S', 'IEpar']))
+            if imex:
+                lvc.update(lamI=lamv, cI=cv, lamE=tuple(rfrac(rng, -2, 1) for _ in range(dims[l])), muE=tuple(F(0) for _ in range(dims[l])),
+                           cE=tuple(rfrac(rng, -2, 2) for _ in range(dims[l])), QE='EE')
+            else:
+                lvc.update(lam=lamv, c=cv)
+            levels_cfg.append(lvc)
         dt = F(1, rng.choice([4, 8]))
         u0 = rfrac(rng, -3, 3)
         u0v = [u0] if dims[0] == 1 else [rfrac(rng, -3, 3) for _ in range(dims[0])]
-        scalar = all(d == 1 for d in dims)
+        scalar = all(d == 1 for d in dims) and not imex
         finter = (i % 4 == 1)
-        cfg = dict(kind='GI', levels=levels_cfg, num_procs=1, maxiter=1, restol=F(-1), dt=dt, predict_type=None, nsweeps=nsw,
+        cfg = dict(kind='IMEX' if imex else 'GI', levels=levels_cfg, num_procs=1, maxiter=1, restol=F(-1), dt=dt, predict_type=None, nsweeps=nsw,
                    finter=finter, small_tables=24)
         try:
             C = er.build_controller(cfg)
@@ -370,7 +376,12 @@ def part_E(ck, rng, n):
             lv = []
             for L in S.levels:
                 M = L.sweep.coll.num_nodes
-                lv.append(dict(M=M, dt=L.params.dt, lam=L.prob.lam[0], c=L.prob.c[0], lamv=list(L.prob.lam), cv=list(L.prob.c),
+                if imex:
+                    pl, pc = [list(L.prob.lamI), list(L.prob.lamE)], [list(L.prob.cI), list(L.prob.cE)]
+                else:
+                    pl, pc = [list(L.prob.lam)], [list(L.prob.c)]
+                lv.append(dict(M=M, dt=L.params.dt, lam=pl[0][0], c=pc[0][0], pl=pl, pc=pc,
+                               QE=([[L.sweep.QE[a, b] for b in range(M + 1)] for a in range(M + 1)] if imex else [[0] * (M + 1) for _ in range(M + 1)]),
                                Q=[[L.sweep.coll.Qmat[a, b] for b in range(M + 1)] for a in range(M + 1)],
                                QI=[[L.sweep.QI[a, b] for b in range(M + 1)] for a in range(M + 1)],
                                nodes=[F(0)] + [F(x) for x in L.sweep.coll.nodes],
@@ -388,7 +399,7 @@ def part_E(ck, rng, n):
         except (ZeroDivisionError, StopIteration):
             continue
         post = [e for e in log if e['cb'] == 'post_step'][0]
-        ck.case(key=('mgrit', nl, tuple(nn), tuple(nsw), tuple(l['QI'] for l in levels_cfg), tuple(dims), finter), nontrivial=True,
+        ck.case(key=('mgrit', nl, tuple(nn), tuple(nsw), tuple(l['QI'] for l in levels_cfg), tuple(dims), finter, imex), nontrivial=True,
                 sample=dict(levels=nl, nodes=nn, nsweeps=nsw, dims=dims, finter=finter))
         ck.traces += 1
         for l in (range(nl) if scalar else []):
@@ -407,20 +418,22 @@ def part_E(ck, rng, n):
             d = lv[l]
             pre = 0 if l == 0 else (1 if l == nl - 1 else nsw[l])
             post = nsw[0] if l == 0 else (0 if l == nl - 1 else nsw[l])
-            return ('{| ml_M := %d%%nat; ml_dt := %s; ml_nodes := %s; ml_Q := %s; ml_QI := %s; '
+            return ('{| ml_M := %d%%nat; ml_dt := %s; ml_nodes := %s; ml_Q := %s; ml_QI := %s; ml_QE := %s; '
                     'ml_prob := {| p_dim := %d%%nat; p_lam := %s; p_mu := %s; p_c := %s |}; ml_pre := %d%%nat; ml_post := %d%%nat |}'
-                    % (d['M'], qc(d['dt']), qcl(d['nodes']), qcm(d['Q']), qcm(d['QI']), dims[l], qcm([d['lamv']]), qcm([[0] * dims[l]]), qcm([d['cv']]), pre, post))
+                    % (d['M'], qc(d['dt']), qcl(d['nodes']), qcm(d['Q']), qcm(d['QI']), qcm(d['QE']), dims[l], qcm(d['pl']), qcm([[0] * dims[l]] * len(d['pl'])), qcm(d['pc']), pre, post))
 
         def mxfer(k):
             Mf, Mc = lv[k]['M'], lv[k + 1]['M']
             return ('{| mx_df := %d%%nat; mx_dc := %d%%nat; mx_Rs := %s; mx_Ps := %s; mx_Rcoll := %s; mx_Pcoll := %s; mx_finter := %s |}'
                     % (dims[k], dims[k + 1], qcm(RS[k]), qcm(PS[k]), qcm([[0] * (Mf + 1)] + [[0] + list(r) for r in R[k]]), qcm([[0] * (Mc + 1)] + [[0] + list(r) for r in P[k]]), coq_bool(finter)))
         pred = [e for e in log if e['cb'] == 'post_predict'][0]['levels'][0]
-        expected = [x for v in post['levels'][0]['u'][1:] for x in v] + [x for v in post['levels'][0]['f'][1:] for x in v]
-        mcases.append((dict(levels=nl, nodes=nn, nsweeps=nsw, dims=dims, finter=finter, QI=[x['QI'] for x in levels_cfg], lam=[str(x) for x in lams], c=str(c), dt=str(dt), u0=str(u0)),
-                       '({| m_t0 := %s; m_fine := %s; m_rest := %s; m_u := %s; m_f := %s |}, %s)'
-                       % (qc(F(0)), mlevel(0), coq_list(['(%s, %s)' % (mxfer(k), mlevel(k + 1)) for k in range(nl - 1)]),
-                          qcm(pred['u']), qcm(pred['f']), qcl(expected))))
+        def parts(fv):      # right-hand side of one node -> list of parts, each a list of components
+            return fv if imex else [fv]
+        expected = [x for v in post['levels'][0]['u'][1:] for x in v] + [x for fv in post['levels'][0]['f'][1:] for pt in parts(fv) for x in pt]
+        mcases.append((dict(levels=nl, nodes=nn, nsweeps=nsw, dims=dims, finter=finter, imex=imex, QI=[x['QI'] for x in levels_cfg], lam=[str(x) for x in lams], c=str(c), dt=str(dt), u0=str(u0)),
+                       '({| m_t0 := %s; m_imex := %s; m_fine := %s; m_rest := %s; m_u := %s; m_f := %s |}, %s)'
+                       % (qc(F(0)), coq_bool(imex), mlevel(0), coq_list(['(%s, %s)' % (mxfer(k), mlevel(k + 1)) for k in range(nl - 1)]),
+                          qcm(pred['u']), coq_list([qcm(parts(fv)) for fv in pred['f']]), qcl(expected))))
     return mcases
 
 
